@@ -32,6 +32,9 @@ def container_fields(ctx, label, n):
         '_X': SArr(n, ctx.fresh(f'{label}.X', z3.ArraySort(INT, F64)), 'float'),
         '_trace': tr,
         'meta': OpaqueMutable(0),
+        # an entry that a subclass put straight into the instance dictionary without registering it in `_attributes`
+        # (AliasMixin does this with `aliases` and `preferred_names`): part of the object's state all the same
+        'aliases': OpaqueMutable(5),
     }
 
 
